@@ -75,6 +75,7 @@ type modelRun struct {
 	first  int // index of the first call served by this run
 	// ambiguous: some notification arrived inside [lo, hi], ie possibly just after the run was released
 	ambiguous bool
+	ambN      int // how many notifications arrived inside [lo, hi]
 }
 
 // c13Model is client-go's delaying queue for one de-duplicated item: the earliest
@@ -100,6 +101,7 @@ func c13Model(calls []whenCall) []modelRun {
 			// [cur.lo, cur.hi]): whether it was coalesced or starts a new run is not determined by the
 			// observation; no "too late" verdict is drawn for the run that follows
 			cur.ambiguous = true
+			cur.ambN++
 		}
 		if lo < cur.lo {
 			cur.lo = lo
@@ -306,8 +308,14 @@ func execC13(c C13Case) *Failure {
 		obsMu.Lock()
 		obs := append([]time.Duration{}, observed...)
 		obsMu.Unlock()
-		if len(obs) > len(runs) {
-			return failf("C13:"+c.Limiter+":extra-run", "the real queue ran %d times, the schedule permits %d%s\n  observed %v", len(obs), len(runs), desc(), obs)
+		// a notification that arrives while a run is due may have been coalesced into it (as the model assumes) or
+		// may have come just after it was released and started a run of its own: both are correct
+		permitted := len(runs)
+		for _, r := range runs {
+			permitted += r.ambN
+		}
+		if len(obs) > permitted {
+			return failf("C13:"+c.Limiter+":extra-run", "the real queue ran %d times, the schedule permits %d%s\n  observed %v", len(obs), permitted, desc(), obs)
 		}
 		// nothing dropped: the last notification must be followed by a run (a slow worker may
 		// legitimately merge two scheduled runs into one, so the counts need not be equal)
@@ -315,6 +323,9 @@ func execC13(c C13Case) *Failure {
 			return failf("C13:"+c.Limiter+":dropped", "the last notification (at %v) was not followed by any run of the real queue: observed runs %v%s", calls[len(calls)-1].tb, obs, desc())
 		}
 		for i, o := range obs {
+			if permitted != len(runs) {
+				break // with an ambiguous arrival the i-th observed run need not be the i-th run of the model
+			}
 			if o < runs[i].lo-time.Millisecond/2 {
 				return failf("C13:"+c.Limiter+":ran-early", "real queue run %d started at %v, before the earliest permitted instant %v%s", i, o, runs[i].lo, desc())
 			}
@@ -481,9 +492,17 @@ func execC13Sites(c C13SitesCase) *Failure {
 			}
 			n++
 		}
-		// nothing dropped: the last granted request of the kind is followed by a run
-		if len(granted) > 0 && last < granted[len(granted)-1]-time.Millisecond/2 {
-			return failf("C13:sites:dropped", "the last request (full=%v) granted by the rate limiter for %v was never served%s", kind, granted[len(granted)-1].Round(10*time.Microsecond), desc())
+		// nothing dropped: the last request of the kind is followed by a run, ie one that starts after the request
+		// arrived (the queue keeps the earliest deadline of an item, so a request that arrives while a run of its
+		// kind is due is served by that run, earlier than the instant the limiter granted to it)
+		lastCall := time.Duration(-1)
+		for _, cl := range calls {
+			if cl.full == kind && cl.tb > lastCall {
+				lastCall = cl.tb
+			}
+		}
+		if lastCall >= 0 && last < lastCall {
+			return failf("C13:sites:dropped", "the last request (full=%v), which arrived at %v, was never followed by a run of its kind%s", kind, lastCall.Round(10*time.Microsecond), desc())
 		}
 	}
 	// spacing between the instants granted by the limiter (certain violations only)
